@@ -23,6 +23,7 @@ type genState struct {
 	words   []string
 	old     map[string][]Val // values stored earlier at a path
 	dim     int
+	vecMetric string
 }
 
 var intPool = []int64{0, 1, -1, 2, 3, 5, 7, 10, 42, 100, -100, 255, 256, 1000, math.MaxInt64, math.MinInt64, math.MaxInt64 - 1, math.MinInt64 + 1, 1 << 31, -(1 << 31), 1<<32 + 1}
@@ -58,6 +59,10 @@ func (g *genState) pickSchema(idx int) schemaSpec {
 	switch g.profile {
 	case "c02":
 		return filt
+	case "c04":
+		return g.schemaC04(idx)
+	case "c05":
+		return schemaSpec{{path: []string{"txt", "meta.body"}[idx%2], kind: ixText}, {path: "i", kind: ixInt}, {path: "tags", kind: ixStrArr, caseSens: true}}
 	case "c01":
 		switch idx % 6 {
 		case 0:
@@ -74,6 +79,31 @@ func (g *genState) pickSchema(idx int) schemaSpec {
 		}
 	}
 	return filt
+}
+
+func (g *genState) schemaC04(idx int) schemaSpec {
+	r := g.r
+	metrics := []string{"euclidean", "cosine", "dot", "hamming", "jaccard", "haversine"}
+	m := metrics[idx%6]
+	dim := []int{2, 3, 4, 8}[r.IntN(4)]
+	if m == "haversine" {
+		dim = 2
+	}
+	var q quantSpec
+	if m == "euclidean" || m == "cosine" || m == "dot" {
+		switch (idx / 6) % 4 {
+		case 1:
+			q = quantSpec{kind: 1, thr: []float32{0.5, 1.5, -0.5, 0}[r.IntN(4)], metric: []string{"hamming", "jaccard"}[r.IntN(2)]}
+		case 2:
+			q = quantSpec{kind: 2, trigger: r.IntN(9), metric: []string{"hamming", "jaccard"}[r.IntN(2)]}
+		case 3:
+			dim = []int{2, 4, 8}[r.IntN(3)]
+			q = quantSpec{kind: 3, ncent: 2 + r.IntN(3), nsub: 2, trigger: 4 + r.IntN(5)}
+		}
+	}
+	g.dim = dim
+	g.vecMetric = m
+	return schemaSpec{{path: "fv", kind: ixFlat, dim: dim, metric: m, q: q}, {path: "i", kind: ixInt}, {path: "tags", kind: ixStrArr, caseSens: true}}
 }
 
 func (g *genState) pick(ss []string) string { return ss[g.r.IntN(len(ss))] }
@@ -116,8 +146,31 @@ func (g *genState) genText() string {
 }
 func (g *genState) genVec(dim int) []float32 {
 	v := make([]float32, dim)
-	for i := range v {
-		v[i] = float32(g.r.IntN(17) - 8)
+	switch g.vecMetric {
+	case "hamming", "jaccard":
+		for i := range v {
+			v[i] = float32(g.r.IntN(2))
+			if g.r.IntN(8) == 0 {
+				v[i] = float32(g.r.IntN(5) - 2)
+			}
+		}
+	case "haversine":
+		v[0] = float32(g.r.IntN(181) - 90)
+		v[1] = float32(g.r.IntN(361) - 180)
+	default:
+		for i := range v {
+			v[i] = float32(g.r.IntN(17) - 8)
+		}
+		if g.r.IntN(6) == 0 { // duplicates of stored vectors: ties
+			if st := g.storedAt("fv"); len(st) > 0 {
+				c := st[g.r.IntN(len(st))]
+				if c.K == kArr && len(c.A) == dim {
+					for i := range v {
+						v[i] = math.Float32frombits(uint32(c.A[i].Bits))
+					}
+				}
+			}
+		}
 	}
 	return v
 }
@@ -318,6 +371,7 @@ func (g *genState) genBatch(step int) batchSpec {
 	case k < 75: // update
 		n := 1 + r.IntN(5)
 		b := batchSpec{kind: 1}
+		used := map[uuid.UUID]bool{}
 		for i := 0; i < n; i++ {
 			var id uuid.UUID
 			if r.IntN(4) == 0 && len(dead) > 0 {
@@ -325,9 +379,16 @@ func (g *genState) genBatch(step int) batchSpec {
 			} else {
 				id = live[r.IntN(len(live))]
 			}
+			if used[id] {
+				continue
+			}
+			used[id] = true
 			b.points = append(b.points, pointSpec{id: id, doc: g.genDoc(true, !g.noRej)})
 		}
-		if r.IntN(15) == 0 {
+		// the same id twice in one update batch: only where the point store alone is judged (C01).
+		// The index pipelines process the two versions concurrently (text analysis workers), so
+		// index state after such a batch is not determined -- see DESIGN.md section 6, F14.
+		if g.profile == "c01" && r.IntN(15) == 0 {
 			b.points = append(b.points, pointSpec{id: b.points[0].id, doc: g.genDoc(true, false)})
 		}
 		if r.IntN(20) == 0 {
